@@ -27,7 +27,9 @@ CLAIM = {
             "with the stored ListenSlot as one value (restore_listener), never with a freshly built slot, before the "
             "channel is published; (R14.10) add_block keeps a header window of exactly MAX_REORG_SIZE entries (truncate "
             "to MAX - 1 before pushing the old tip, or to MAX after), so that a reorg of any depth inside the window can "
-            "be disconnected. Does not decide "
+            "be disconnected; (R14.11) the payment preimages the monitors consult when they decode a commitment "
+            "(which received HTLC outputs are ours to claim) survive a restart: after NodeState::restore rebuilt them, "
+            "restore_node overwrites payment entries only for the keys of the outgoing-invoice table. Does not decide "
             "equality with a fresh replay over all block histories nor general panic-freedom.",
     "note": "rustc MIR; symmetry is compared per match arm over field writes, mutator calls and Vec::push sites "
             "including closures called from the arm",
@@ -58,6 +60,7 @@ def run(ctx):
     r148(ctx)
     r149(ctx)
     r1410(ctx)
+    r1411(ctx)
 
 
 def arms(ctx, body, variants):
@@ -556,3 +559,53 @@ def r1410(ctx):
                f"push_front), MAX_REORG_SIZE is {mx[0]}: a reorg of depth {mx[0]} inside the window cannot be disconnected "
                "(remove_block answers ReorgTooDeep and the protocol handler aborts)", where=f"{b.file}:{tc.line}",
                sample=f"window {mx[0]}")
+
+
+def r1411(ctx):
+    ctx.rule("R14.11", "restart keeps the preimage-carrying payment entries: Node::restore_node overwrites NodeState.payments "
+                       "entries (insert of a fresh RoutedPayment) only for keys of NodeState.invoices (outgoing invoices); the "
+                       "entries NodeState::restore rebuilt from the stored preimages - which decide, on every block connect / "
+                       "disconnect, which received HTLC outputs a commitment decodes to - are left alone")
+    from engine import rulelib as R
+    from engine.cfg import render, subexprs
+    p = ctx.prog
+    b = p.fn("lightning_signer::node::Node::restore_node")
+    fv = fnview(ctx, b)
+    writes = []
+    for bi, c in b.calls():
+        nm = c.callee.name if c.callee else ""
+        last = nm.rsplit("::", 1)[-1]
+        if last in ("insert", "clear", "remove", "retain", "append", "extend") and c.args and bi in fv.live_blocks():
+            e = fv.expr(c.args[0])
+            if any(x[0] == "field" and x[3] == "payments" and x[2].endswith("NodeState") for x in subexprs(e)):
+                writes.append((bi, c.line, last))
+    loops = R.loops_over(fv, lambda s_: True)
+    for bi, ln, kind in writes:
+        srcs = []
+        for hdr, c, body_e, exit_e in loops:
+            inside = any(bi == v or bi in fv.reach(v, cut_nodes={hdr}) for (_, v) in body_e)
+            if inside:
+                srcs.append(render(fv.expr(c.args[0])))
+        ok = kind == "insert" and len(srcs) >= 1 and all(".invoices" in x and "issued_invoices" not in x for x in srcs)
+        ctx.ob("R14.11", ok, f"{b.name}/payments-{kind}/keys",
+               f"restore_node applies `{kind}` to NodeState.payments for keys from {[x[:90] for x in srcs] or 'no loop (whole map)'}: "
+               "entries restored from the stored preimages (incoming payments, keyed like issued_invoices) are overwritten, so after a "
+               "restart a commitment decodes to a different set of claimable HTLC outputs than before it",
+               where=f"{b.file}:{ln}", sample=f"insert for keys of {[x[:60] for x in srcs]}")
+    if not writes:
+        ctx.ob("R14.11", True, f"{b.name}/payments-untouched", "", where=f"{b.file}:{b.line}", sample="restore_node does not write NodeState.payments")
+    # the restored entries exist in the first place: NodeState::restore builds payments from the preimages parameter
+    rb = p.fn("lightning_signer::node::NodeState::restore")
+    rv = fnview(ctx, rb, policy=False)
+    found = False
+    for bb, bi, si, st in R.constructions(p, "lightning_signer::node::NodeState"):
+        if bb is not rb:
+            continue
+        for fname, op in zip(st.rv.a[3], st.rv.ops):
+            if fname == "payments":
+                found = True
+                e = render(rv.expr(op))
+                ctx.ob("R14.11", "preimages" in e, f"{rb.name}/payments-from-preimages",
+                       f"NodeState::restore builds payments from `{e[:120]}`, not from the stored preimages", where=f"{rb.file}:{st.line}",
+                       sample="payments <- preimages")
+    ctx.floor("R14.11", "NodeState literal in NodeState::restore with a payments field", 1 if found else 0, 1)
